@@ -5,7 +5,17 @@
 set -u
 Z=/var/tmp/zv2
 P="$1"; shift
+# first use: create the isolated worktree and the harness copy (its Cargo.toml files point at the worktree);
+# remove both when done: git -C /repo worktree remove --force $Z/repo; rm -rf $Z
+# NEVER run two of these at the same time: they share the worktree.
+if [ ! -d $Z/repo ]; then
+  mkdir -p $Z && git -C /repo worktree add --detach $Z/repo HEAD >/dev/null 2>&1 || exit 2
+fi
 rsync -a --exclude target --exclude .git --exclude replays --exclude 'engine/*/Cargo.toml' /verif/ $Z/verif/
+for f in /verif/engine/Cargo.toml /verif/engine/*/Cargo.toml; do
+  t="$Z/verif/${f#/verif/}"
+  if [ ! -f "$t" ]; then sed "s#/repo/#$Z/repo/#g" "$f" > "$t"; fi
+done
 git -C $Z/repo checkout -q --detach "$(git -C /repo rev-parse HEAD)" 2>/dev/null
 git -C $Z/repo checkout -- . 
 cd $Z/verif
